@@ -1,0 +1,98 @@
+//go:build verif
+
+package collection
+
+import (
+	"fmt"
+
+	"github.com/tidwall/tile38/internal/object"
+)
+
+// VerifAudit cross-checks the id tree against the spatial, value and expiry
+// indexes and the counters. Read-only. Returns a list of inconsistencies.
+func (c *Collection) VerifAudit() []string {
+	var out []string
+	add := func(format string, a ...interface{}) {
+		if len(out) < 20 {
+			out = append(out, fmt.Sprintf(format, a...))
+		}
+	}
+	var objects, nobjects, points, weight, nspatial, nexpires int
+	c.objs.Scan(func(id string, o *object.Object) bool {
+		if o.ID() != id {
+			add("id tree key %q holds object with id %q", id, o.ID())
+		}
+		if o.IsSpatial() {
+			objects++
+			if !o.Geo().Empty() {
+				nspatial++
+				found := false
+				min, max := rtreeRect(o.Rect())
+				c.spatial.Search(min, max, func(_, _ [2]float32, it *object.Object) bool {
+					if it == o {
+						found = true
+						return false
+					}
+					return true
+				})
+				if !found {
+					add("object %q missing from the spatial index", id)
+				}
+			}
+		} else {
+			nobjects++
+			if it, ok := c.values.Get(o); !ok || it != o {
+				add("string %q missing from the value index", id)
+			}
+		}
+		if o.Expires() != 0 {
+			nexpires++
+			if it, ok := c.expires.Get(o); !ok || it != o {
+				add("object %q with deadline missing from the expiry index", id)
+			}
+		}
+		points += o.Geo().NumPoints()
+		weight += o.Weight()
+		return true
+	})
+	if c.spatial.Len() != nspatial {
+		add("spatial index has %d entries, %d non-empty geometries stored", c.spatial.Len(), nspatial)
+	}
+	c.spatial.Scan(func(_, _ [2]float32, it *object.Object) bool {
+		if cur, _ := c.objs.Get(it.ID()); cur != it {
+			add("spatial index holds stale object %q", it.ID())
+		}
+		return true
+	})
+	if c.values.Len() != nobjects {
+		add("value index has %d entries, %d strings stored", c.values.Len(), nobjects)
+	}
+	c.values.Scan(func(it *object.Object) bool {
+		if cur, _ := c.objs.Get(it.ID()); cur != it {
+			add("value index holds stale object %q", it.ID())
+		}
+		return true
+	})
+	if c.expires.Len() != nexpires {
+		add("expiry index has %d entries, %d objects with a deadline stored", c.expires.Len(), nexpires)
+	}
+	c.expires.Scan(func(it *object.Object) bool {
+		if cur, _ := c.objs.Get(it.ID()); cur != it {
+			add("expiry index holds stale object %q", it.ID())
+		}
+		return true
+	})
+	if c.objects != objects {
+		add("geometry counter %d, recomputed %d", c.objects, objects)
+	}
+	if c.nobjects != nobjects {
+		add("string counter %d, recomputed %d", c.nobjects, nobjects)
+	}
+	if c.points != points {
+		add("point counter %d, recomputed %d", c.points, points)
+	}
+	if c.weight != weight {
+		add("weight counter %d, recomputed %d", c.weight, weight)
+	}
+	return out
+}
